@@ -14,7 +14,6 @@ import copy
 
 from . import impl
 from .impl import P
-from .ops_hist import db_str, do_load
 
 
 def mk_pkt(spec):
@@ -106,6 +105,7 @@ def snap_buf(buf):
 
 
 def snap_db(db):
+    from .ops_hist import db_str
     p = P()
     ids = []
     from .ops_hist import sections
@@ -122,6 +122,7 @@ def snap_db(db):
 def op_frame(f):
     p = P()
     from scapy.layers.inet import TCP
+    from .ops_hist import do_load
     db = p["Database"]()
     if f[1]:
         do_load(db, f[1], False)
